@@ -443,16 +443,38 @@ CONSTRUCTS = {
     'uenv1': ('\\begin{zzenvT}', '\\end{zzenvT}'),
     'uenvA': ('\\begin{zzenvA}{}', '\\end{zzenvA}'),
 }
-TEXT_OPEN = {'boxmix': 'bcf', 'lastcell': 'u', 'uenv1': 'eb'}
+# declarations that are environments used in command form: they leave a frame open that the end of the enclosing
+# environment (whose class is their base class) has to close as well
+DECL_CONSTRUCTS = {
+    'centerdecl': ('\\begin{center}\\centering ', '\\end{center}'),
+    'flushldecl': ('\\begin{flushleft}\\raggedright ', '\\end{flushleft}'),
+    'quotedecl': ('\\begin{quote}\\centering ', '\\end{quote}'),
+    'bracedecl2': ('{\\large\\bfseries ', '}'),          # two declarations in a row inside a group
+    'bracedecl0': ('{x\\itshape ', '}'),
+}
+TEXT_OPEN = {'boxmix': 'bcf', 'lastcell': 'u', 'uenv1': 'eb', 'bracedecl0': 'x'}
 TEXT_CLOSE = {'uenv1': 'ee'}
 # inside math only these may nest (text constructs in math are not well-formed LaTeX)
+CONSTRUCTS.update(DECL_CONSTRUCTS)
 IN_MATH = ('brace', 'bgroup', 'boxmix')
+
+
+def decl_chains():
+    out = []
+    for c in DECL_CONSTRUCTS:
+        out.append((c,))
+        for x in ('brace', 'cell', 'item', 'center', 'uenv0'):
+            out.append((c, x))
+            out.append((x, c))
+        for c2 in DECL_CONSTRUCTS:
+            out.append((c, c2))
+    return out
 
 
 def nestings(depth):
     """all chains of constructs of length 1..depth (a chain = one construct inside the previous one) and all
     two-sibling sequences at the top level"""
-    names = list(CONSTRUCTS)
+    names = [n for n in CONSTRUCTS if n not in DECL_CONSTRUCTS]
     out = []
     for d in range(1, depth + 1):
         for chain in itertools.product(names, repeat=d):
@@ -650,6 +672,7 @@ def run(tier, seed, rep):
                  [([c], (0, 1 | 8, 2 | 16, 31)) for c in chains if len(c) == 4]
     else:
         blocks = [([c], maskset) for c in chains]
+    blocks += [([c], (0, 1 | 8, 2 | 16, 4, 31)) for c in decl_chains()]
     # frames that hold only an alias and/or a category change (no definition of their own)
     blocks += [([c], (0, 4, 8, 12)) for c in chains if len(c) <= (2 if quick else 3)]
     blocks = core.rotate(blocks, seed)
